@@ -150,7 +150,12 @@ def new_stats():
 def check(mod, pid, tier, seed, t0):
     import random
     # ---- 1/2: build + audit
-    modules = list(getattr(mod, "LEAN_MODULES", [])) + ["Pypika.Agree"]
+    # only the table-agreement modules this property rests on: a change to an unrelated table must not touch it
+    modules = list(getattr(mod, "LEAN_MODULES", []))
+    for name in getattr(mod, "AGREE", []):
+        m = common.AGREE_MODULE[name.split(".")[-1]]
+        if m not in modules:
+            modules.append(m)
     build = common.lean_build(modules, need_driver=True, clean=(tier == "thorough" and os.environ.get("VERIF_CLEAN") == "1"))
     theorems = list(getattr(mod, "THEOREMS", []))
     agree = list(getattr(mod, "AGREE", []))
